@@ -99,6 +99,10 @@ func (e *Exec) inModule(fn *ssa.Function) bool {
 		return e.inModule(fn.Parent())
 	}
 	if p == nil {
+		// synthetic wrappers (promoted methods) have no package: use the method object's
+		if o := fn.Object(); o != nil && o.Pkg() != nil {
+			return strings.HasPrefix(o.Pkg().Path(), "github.com/antonmedv/expr")
+		}
 		return false
 	}
 	return strings.HasPrefix(p.Pkg.Path(), "github.com/antonmedv/expr")
@@ -135,6 +139,9 @@ func (e *Exec) invokeMethod(st *State, fr *Frame, cc *ssa.CallCommon, recv *Valu
 		return
 	}
 	if e.InvokeHook != nil && e.InvokeHook(e, st, fr, cc, recv, args, k) {
+		return
+	}
+	if e.resolveInvoke(st, fr, cc, recv, args, k) {
 		return
 	}
 	nilrecv := Eq(recv.One(), VNil)
